@@ -27,6 +27,10 @@ type VerifC19View struct {
 	StateHeight   uint64
 	StateTime     time.Time
 	StateChainID  string
+	// Buffered: evidence-typed elements of every slice field of the pool (the reports of consensus a pool
+	// keeps aside until their block is committed), found by reflection so that this file compiles against
+	// trees with and without such a field.
+	Buffered []types.Evidence
 }
 
 // VerifC19Inspect reads the pool's in-memory fields.
@@ -37,6 +41,19 @@ func VerifC19Inspect(p *Pool) VerifC19View {
 	for e := p.evidenceList.Front(); e != nil; e = e.Next() {
 		if ev, ok := e.Value.(types.Evidence); ok {
 			v.List = append(v.List, ev)
+		}
+	}
+	pv := reflect.ValueOf(p).Elem()
+	for i := 0; i < pv.NumField(); i++ {
+		f := pv.Field(i)
+		if f.Kind() != reflect.Slice {
+			continue
+		}
+		src := reflect.NewAt(f.Type(), unsafe.Pointer(f.UnsafeAddr())).Elem()
+		for k := 0; k < src.Len(); k++ {
+			if ev, ok := src.Index(k).Interface().(types.Evidence); ok && !(reflect.ValueOf(ev).Kind() == reflect.Ptr && reflect.ValueOf(ev).IsNil()) {
+				v.Buffered = append(v.Buffered, ev)
+			}
 		}
 	}
 	return v
